@@ -72,7 +72,7 @@ def infer(facts, crates=None, _debug=None):
                 continue
             forder[r["path"]] = [f[0] for f in r["variants"][0][1]]
             for name, ty, vis in r["variants"][0][1]:
-                if vis == "pub" and r.get("vis") == "pub":
+                if vis == "pub" and r.get("vis") == "pub" and r.get("reachable", True):
                     continue
                 tr = ty_range(ty)
                 if tr is not None and ty not in ("bool", "char"):
